@@ -20,7 +20,7 @@ MODULES = {
     "par_sort": dict(file="kani/par_sort.rs", pkg="nucleo", inject="src/par_sort.rs", parent="par_sort"),
     "charmodel": dict(file="kani/charmodel.rs", pkg="nucleo-matcher", inject="matcher/src/chars.rs", parent="chars"),
     "uni": dict(file="kani/uni.rs", pkg="nucleo-matcher", inject="matcher/src/lib.rs", parent="", needs=["spec", "optimal", "charmodel"]),
-    "pattern": dict(file="kani/pattern.rs", pkg="nucleo-matcher", inject="matcher/src/pattern.rs", parent="pattern", needs=["spec", "optimal"]),
+    "pattern": dict(file="kani/pattern.rs", pkg="nucleo-matcher", inject="matcher/src/pattern.rs", parent="pattern", needs=["spec", "optimal", "charmodel"]),
     "utf32": dict(file="kani/utf32.rs", pkg="nucleo-matcher", inject="matcher/src/utf32_str.rs", parent="utf32_str"),
     "score": dict(file="kani/score.rs", pkg="nucleo-matcher", inject="matcher/src/score.rs", parent="score", needs=["spec"]),
 }
@@ -47,6 +47,7 @@ TRUSTED_BASE = [
 ]
 
 UNITS = []
+NOSEG = "--no-default-features --features unicode-normalization,unicode-casefold"
 
 
 def U(name, module, harness, props, kind, functions, desc, bound=None, expect="pass", timeout=900, cost=1, engine="kani", **kw):
@@ -207,16 +208,19 @@ for (h, n) in ((3, 2), (4, 2), (4, 3), (5, 3), (6, 3), (6, 4)):
         for arm in (0, 1, 2, 3):
             if k == 1 and arm in (1, 2) and (h, n) != (4, 3):
                 continue  # the bonus configuration only matters for which occurrence wins; covered by arms 0 and 3
-            tier = "quick" if h <= 4 else "thorough"
             bound = "ASCII haystack %d, needle %d, %s, %s" % (h, n, CFGNAME[k], ARMNAME[arm])
+            # each of these takes 3-9 min and 4-8 GB: the quick tier keeps the smallest shape of every
+            # code path plus the (4,3) decisions (smallest shape with a letter-free needle prefix of 2)
+            dec_tier = "quick" if ((h, n) == (3, 2) and k == 0) or ((h, n) == (4, 3) and (k == 0 or arm == 3)) else "thorough"
+            wit_tier = "quick" if (h, n) == (3, 2) and k == 0 else "thorough"
             tag = "h%d-n%d-k%d-a%d" % (h, n, k, arm)
-            UC("c05-sub-ascii-dec-" + tag, "exact", "sub_ascii_decision::<%d,%d,%d,%d>()" % (h, n, k, arm), {"C05": tier, "C10": tier}, "bounded", EXACT_FNS[1:3],
+            UC("c05-sub-ascii-dec-" + tag, "exact", "sub_ascii_decision::<%d,%d,%d,%d>()" % (h, n, k, arm), {"C05": dec_tier, "C10": dec_tier}, "bounded", EXACT_FNS[1:3],
                "substring_match_ascii: Some <=> the needle occurs contiguously in the normalised haystack", unwind=max(h + 3, 7), bound=bound, cost=6)
-            UC("c05-sub-ascii-wit-" + tag, "exact", "sub_ascii_witness::<%d,%d,%d,%d>()" % (h, n, k, arm), {"C05": tier, "C02": tier, "C03": tier}, "bounded", EXACT_FNS[1:],
+            UC("c05-sub-ascii-wit-" + tag, "exact", "sub_ascii_witness::<%d,%d,%d,%d>()" % (h, n, k, arm), {"C05": wit_tier, "C02": wit_tier, "C03": wit_tier}, "bounded", EXACT_FNS[1:],
                "substring_match_ascii: leftmost occurrence with the highest first-char bonus; contiguous valid witness; score == scheme; None appends nothing", unwind=max(h + 3, 7), bound=bound, cost=7)
     if (h, n) in ((4, 2), (4, 3)):
         for arm in (0, 1):
-            UC("c03-sub-ascii-agree-h%d-n%d-a%d" % (h, n, arm), "exact", "sub_ascii_agree::<%d,%d,0,%d>()" % (h, n, arm), {"C03": "quick"}, "bounded", EXACT_FNS[1:], "substring_match_ascii: variants agree", unwind=max(h + 3, 7), bound="ASCII haystack %d, needle %d, %s" % (h, n, ARMNAME[arm]))
+            UC("c03-sub-ascii-agree-h%d-n%d-a%d" % (h, n, arm), "exact", "sub_ascii_agree::<%d,%d,0,%d>()" % (h, n, arm), {"C03": "thorough"}, "bounded", EXACT_FNS[1:], "substring_match_ascii: variants agree", unwind=max(h + 3, 7), bound="ASCII haystack %d, needle %d, %s" % (h, n, ARMNAME[arm]))
 UC("c05-exact-canary", "exact", "exact_canary()", {"C05": "quick"}, "bounded", [], "canary", unwind=8, expect="fail", no_cover=True)
 
 # public entry points, ASCII x ASCII
@@ -247,6 +251,15 @@ for alg, (aname, fns) in ALGS.items():
             if (h, n) in ((4, 2), (3, 3)) and k == 0:
                 UC("c03-entry-agree-" + tag, "entry", "entry_agree::<%d,%d,%d,%d>()" % (alg, h, n, k), {"C03": tier, "C10": tier}, "bounded", fns,
                    "%s: score-only and indices entry points agree, also on a reused matcher" % aname, unwind=max(h + 3, 7), bound=bound, cost=9 if heavy else 3, timeout=1500)
+REFUSE = [("crate::matrix::MatrixSlab::alloc", "crate::matrix::verif_matrix::alloc_refuses")]
+for (h, n) in ((4, 2), (5, 3)):
+    tier = "quick" if h == 4 else "thorough"
+    UC("c01-entry-fallback-dec-h%d-n%d" % (h, n), "entry", "entry_decision::<0,%d,%d,0>()" % (h, n), {"C01": tier, "C10": tier}, "bounded", ALGS[0][1] + ["Matcher::fuzzy_match_optimal (fallback arm)", "Matcher::fuzzy_match_greedy_"],
+       "fuzzy_match with the slab refusing (greedy fallback forced): still decides the normalised-subsequence relation", unwind=max(h + 3, 7),
+       bound="Ascii x Ascii, haystack %d, needle %d, MatrixSlab::alloc stubbed to return None" % (h, n), cost=5, stubs=REFUSE)
+    UC("c02-entry-fallback-wit-h%d-n%d" % (h, n), "entry", "entry_witness::<0,%d,%d,0>()" % (h, n), {"C02": tier, "C01": tier, "C03": tier}, "bounded", ALGS[0][1] + ["Matcher::fuzzy_match_optimal (fallback arm)", "Matcher::fuzzy_match_greedy_"],
+       "fuzzy_indices with the slab refusing: same decision, W, score == scheme", unwind=max(h + 3, 7),
+       bound="Ascii x Ascii, haystack %d, needle %d, MatrixSlab::alloc stubbed to return None" % (h, n), cost=6, stubs=REFUSE)
 UC("c05-entry-canary", "entry", "entry_canary()", {"C05": "quick", "C01": "quick"}, "bounded", [], "canary", unwind=8, expect="fail", no_cover=True)
 
 # ---------------------------------------------------------------------------
@@ -271,6 +284,13 @@ for (cap, cols, pre) in ((0, 1, 0), (1, 1, 30), (0, 2, 94), (0, 1, 100)):
     UC("c08-vec-extend-get-cap%d-cols%d-pre%d" % (cap, cols, pre), "boxcar", "vec_extend_get::<%d,%d,%d>()" % (cap, cols, pre), {"C08": "quick"}, "bounded", VEC_FNS,
        "[reserve PRE unfilled]; extend(reports 3, yields 0..3); push; get: indices reserved as reported, filled as yielded, unfilled read as nothing, next push continues gap-free (batch crosses a bucket boundary for PRE=30/94)",
        unwind=70, bound="batch of 3 starting at index %d, capacity %d, %d column(s); single thread" % (pre, cap, cols), cost=8, timeout=1500)
+for rep in (1, 2):
+    UC("c08-vec-extend-overreport-%d" % rep, "boxcar", "vec_extend_overreport_panics::<%d>()" % rep, {"C08": "quick"}, "bounded", VEC_FNS[:3],
+       "extend with an ExactSizeIterator that reports %d item(s) but yields %d panics (the lie is caught) instead of writing to an index it never reserved" % (rep, rep + 1),
+       unwind=70, bound="batch reporting %d, yielding %d; single thread" % (rep, rep + 1), cost=6, timeout=1500, should_panic=True, no_cover=True)
+UC("c11-vec-extend-overreport-1", "boxcar", "vec_extend_overreport_panics::<1>()", {"C11": "quick"}, "bounded", VEC_FNS[:3],
+   "extend with an iterator yielding one item more than reported panics instead of storing the surplus item in a slot the next push will overwrite (which would leak it)",
+   unwind=70, bound="batch reporting 1, yielding 2; single thread", cost=6, timeout=1500, should_panic=True, no_cover=True)
 for (cap, pre) in ((0, 0), (1, 30), (0, 100)):
     UC("c11-vec-drop-cap%d-pre%d" % (cap, pre), "boxcar", "vec_drop_exactly_once::<%d,%d>()" % (cap, pre), {"C11": "quick"}, "bounded", ["boxcar::Vec::drop", "boxcar::Bucket::dealloc"] + VEC_FNS[:3],
        "[reserve PRE unfilled]; extend(reports 2, yields 0..2); push; drop(vec): each yielded/pushed item dropped exactly once, nothing dropped early",
@@ -334,7 +354,8 @@ for rep in (1, 2, 3, 4):
             dp["C10"] = tier
             UC("c01-uni-dec-" + tag, "uni", "uni_decision::<%d,%d,%d,%d,0>()" % (rep, alg, h, n), dp, "bounded", UNI_FNS[alg],
                "%s_match (%s) succeeds exactly when the documented relation holds over the characters" % (aname, REPNAME[rep]),
-               unwind=max(h + 3, 7), bound=bound, cost=9 if heavy else 4, timeout=1500, stubs=CHAR_STUBS)
+               unwind=max(h + 3, 7), bound=bound, cost=9 if heavy else 4, timeout=1500, stubs=CHAR_STUBS,
+               expect="known:D2" if rep == 3 else "pass")
             if rep in (1, 2):
                 wp = {"C02": tier, "C03": tier}
                 wp.update(dp)
@@ -344,6 +365,15 @@ for rep in (1, 2, 3, 4):
             if rep == 1 and (h, n) == (4, 2):
                 UC("c03-uni-agree-" + tag, "uni", "uni_agree::<%d,%d,%d,%d,0>()" % (rep, alg, h, n), {"C03": tier}, "bounded", UNI_FNS[alg],
                    "%s (%s): score-only and indices variants agree" % (aname, REPNAME[rep]), unwind=max(h + 3, 7), bound=bound, cost=5, timeout=1500, stubs=CHAR_STUBS)
+for rep in (1, 2):
+    for (h, n) in ((4, 2), (5, 3)):
+        tier = "quick" if h == 4 else "thorough"
+        UC("c01-uni-fallback-dec-r%d-h%d-n%d" % (rep, h, n), "uni", "uni_decision::<%d,0,%d,%d,0>()" % (rep, h, n), {"C01": tier, "C10": tier}, "bounded", UNI_FNS[0] + ["Matcher::fuzzy_match_greedy_::<char,_>"],
+           "fuzzy_match (%s) with the slab refusing (greedy fallback forced): still decides the normalised-subsequence relation" % REPNAME[rep], unwind=max(h + 3, 7),
+           bound="%s, haystack %d, needle %d, model-domain chars, MatrixSlab::alloc stubbed to return None" % (REPNAME[rep], h, n), cost=5, stubs=CHAR_STUBS + REFUSE)
+        UC("c02-uni-fallback-wit-r%d-h%d-n%d" % (rep, h, n), "uni", "uni_witness::<%d,0,%d,%d,0>()" % (rep, h, n), {"C02": tier, "C01": tier, "C03": tier}, "bounded", UNI_FNS[0] + ["Matcher::fuzzy_match_greedy_::<char,_>"],
+           "fuzzy_indices (%s) with the slab refusing: same decision, W, score == scheme" % REPNAME[rep], unwind=max(h + 3, 7),
+           bound="%s, haystack %d, needle %d, MatrixSlab::alloc stubbed to return None" % (REPNAME[rep], h, n), cost=6, stubs=CHAR_STUBS + REFUSE)
 UC("c01-uni-canary", "uni", "uni_canary()", {"C01": "quick", "C05": "quick"}, "bounded", [], "canary", unwind=8, expect="fail", no_cover=True, stubs=CHAR_STUBS)
 
 # ---------------------------------------------------------------------------
@@ -365,6 +395,16 @@ for L in (1, 2, 3, 4, 5):
     UC("c14-parse-markers-%d" % L, "pattern", "parse_markers::<%d>()" % L, {"C14": "quick"}, "bounded", ["pattern::Atom::parse"],
        "Atom::parse on every ASCII string of %d bytes: negation, kind markers, escaped markers, escaped trailing dollar and the text handed to new_inner follow the documented grammar (new_inner replaced by a stub recording its arguments)" % L,
        unwind=8, bound="all ASCII strings of exactly %d bytes (parse inspects at most the first two and last two bytes)" % L, cost=3, stubs=PARSE_STUB)
+NI_STUBS = CHAR_STUBS + [("crate::chars::is_upper_case", "crate::chars::verif_charmodel::model_is_upper")]
+for L in (2, 3):
+    for case in (1, 2):
+        for esc in (True, False):
+            if not esc and L == 3:
+                continue
+            UC("c14-new-inner-unicode-l%d-c%d-%s" % (L, case, "esc" if esc else "noesc"), "pattern",
+               "new_inner_unicode::<%d,%d,true,%s>()" % (L, case, "true" if esc else "false"), {"C14": "quick"}, "bounded", ["pattern::Atom::new_inner (code-point branch)"],
+               "Atom::new_inner on %d model-domain characters (>= 1 non-ASCII), CaseMatching::%s, Normalization::Smart, escape_whitespace=%s: needle == unescaped text (folded under Ignore), smart case / smart normalisation flags as documented" % (L, {1: "Ignore", 2: "Smart"}[case], esc),
+               unwind=12, bound="%d characters from the model domain (ASCII + 16 non-ASCII); unicode-segmentation feature OFF; char-level functions = model table" % L, cost=8, timeout=1500, stubs=NI_STUBS, features=NOSEG)
 for L in (2, 3, 4):
     UC("c14-split-atoms-%d" % L, "pattern", "split_atoms::<%d>()" % L, {"C14": "quick" if L <= 3 else "thorough"}, "bounded", ["pattern::pattern_atoms"],
        "pattern_atoms on every ASCII string of %d bytes: split at every whitespace not preceded by a backslash and nowhere else; pieces are consecutive slices" % L,
@@ -373,7 +413,6 @@ for L in (2, 3, 4):
 # ---------------------------------------------------------------------------
 # C17 (partial) string conversion
 # ---------------------------------------------------------------------------
-NOSEG = "--no-default-features --features unicode-normalization,unicode-casefold"
 U32_FNS = ["utf32_str::has_ascii_graphemes", "Utf32Str::new", "Utf32String::from(&str|String|Box<str>|Cow)"]
 for L in (2, 3, 4):
     UC("c17-ascii-decision-%d" % L, "utf32", "c17_ascii_decision::<%d>()" % L, {"C17": "quick"}, "bounded", U32_FNS[:1],
